@@ -110,12 +110,12 @@ def judge(ctx, res, cases, oracle=True, others=("thl", "exh"), float_share=0.0):
     reqs = []
     for case in cases:
         kw = {"float_inf": True} if ctx.rng.random() < float_share else {}
-        r = {"case": case, "kw": kw, "lca": run_algo(case, "lca", **kw)}
+        r = {"case": case, "kw": kw, "lca": run_algo(case, "lca", present="auto", **kw)}
         r["defects"] = lca_mapping_defects(r["lca"]["outs"][0]) if "outs" in r["lca"] else None
         r["lca"].pop("outs", None)
         r["others"] = {}
         for a in others:
-            o = run_algo(case, a, "all", **kw)
+            o = run_algo(case, a, "all", present="auto", **kw)
             o.pop("outs", None)
             r["others"][a] = o
         lc = lean_case(case)
